@@ -45,6 +45,11 @@ def run(R, job):
 
     for it in range(n):
         deps = [mk(i) for i in range(r.choice([0, 1, 2, 3, 5, 8]))]
+        # the very same object several times, and distinct objects that are equal by value
+        for _ in range(r.choice([0, 0, 1, 2, 3])):
+            if deps:
+                d0 = r.choice(deps)
+                deps.insert(r.randint(0, len(deps)), d0 if r.random() < 0.6 else core.HTMLDependency(d0.name, str(d0.version), head=d0.head))
         t = place(deps, 3)
         t2 = place(deps, 2)
         checked += 1
@@ -69,7 +74,11 @@ def run(R, job):
     D = core.HTMLDependency
     bad = [dict(source="x"), dict(source={"package": "p"}), dict(script="s.js"), dict(script=[{"src": "a.js"}, "b.js"]), dict(script={"href": "x"}),
            dict(stylesheet={"src": "x"}), dict(stylesheet=[1]), dict(meta={"name": "n"}), dict(meta={"content": "c"}), dict(meta=[{"name": "n", "content": "c"}, {}]),
-           dict(script={}), dict(stylesheet={}), dict(meta={}), dict(script=[{}]), dict(script=0)]
+           dict(script={}), dict(stylesheet={}), dict(meta={}), dict(script=[{}]), dict(script=0),
+           # non-dict values that merely CONTAIN the key names
+           dict(source="static/subdir/lib"), dict(source=["subdir", "www"]), dict(source={"subdir"}), dict(source=("href",)), dict(source="href"), dict(source=4),
+           dict(source=[("subdir", "x")]), dict(script="src"), dict(script=["src"]), dict(script=[["src"]]), dict(stylesheet="href"), dict(stylesheet=[("href",)]),
+           dict(meta=["name", "content"]), dict(meta="name content"), dict(meta=[("name", "content")]), dict(source={}), dict(source={"package": "htmltools", "href": None} if False else {"x": "subdir"})]
     for kw in bad:
         checked += 1
         try:
